@@ -167,7 +167,7 @@ def path(c, job):
         if kind == "history":
             # the same sensor object read several times: every reading depends on the current voltage only
             s = _mk(model, env)
-            vs = [c.real(f"v{i}", -10, 10) for i in range(3)]
+            vs = [c.real(f"v{i}", -10, 10) for i in range(job.get("reads", 3))]
             rs = []
             for v in vs:
                 env.v[id(s.distance)] = v
@@ -266,7 +266,10 @@ class C17(Spec):
     outside = ["accuracy of libm pow", "NaN input voltage", "the 4096 ADC codes as concrete doubles (a floating-point question no installed solver settles with a transcendental function)"]
 
     def jobs(self, tier):
-        return [dict(model=m, kind=k) for m in MODELS for k in ("mono", "sim", "inf", "history", "sim2")]
+        j = [dict(model=m, kind=k) for m in MODELS for k in ("mono", "sim", "inf", "history", "sim2")]
+        if tier != "quick":
+            j += [dict(model=m, kind="history", reads=4) for m in MODELS]
+        return j
 
     def bounds(self, tier):
         return dict(voltage="every real in [-1000,1000] (symbolic) plus +-inf, 0, tiny, huge (concrete)", distance="every real in [-1000,1000]", models=list(MODELS))
